@@ -424,7 +424,7 @@ PROPS["C17"] = {
              "back to the identical tree). Oracle: model.Draft07 - a draft-07 evaluator written for this harness that reads "
              "/repo/schema/schema.json and defs.json at run time. For documents whose annotations are well-formed, ValidateData(json), "
              "ValidateData(yaml), ValidateFile(.json), ValidateFile(.yaml), ValidateReader(json) and - when the document decodes "
-             "losslessly into specs.Spec - Validate(spec) / ValidateType must all equal the model's verdict, for the builtin schema and for "
+             "losslessly into specs.Spec (the decoded object stands for exactly this document according to model.SpecTree, the harness's own serialiser written from the specification, not from the struct tags under test) - Validate(spec) / ValidateType must all equal the model's verdict, for the builtin schema and for "
              "an externally loaded copy of the shipped files; for malformed annotations only JSON-vs-YAML equality per entry point; the "
              "none, NOP and nil schemas must accept every object document through every entry point; the package-level functions "
              "(ValidateData, ValidateFile, ValidateReader, ReadAndValidate, Get()) are run after schema.Set of builtin / nil / external / "
@@ -458,7 +458,7 @@ PROPS["C18"] = {
              "timeouts in {0, 1, 30, 2^31-1, 2^32-1}, hostile strings in 3 of 4 cases, the declared version with a leading 'v' in 1 of 8). Oracle: precondition - with no validator installed "
              "WriteSpec accepts the Spec (otherwise the run is undecided: generator bug) - and the files it wrote must then load again; "
              "then schema.BuiltinSchema().Validate(spec) "
-             "must be nil, and with cdi.SetSpecValidator(BuiltinSchema()) installed WriteSpec to .json and .yaml, ReadSpec of both, "
+             "must be nil (in every other case the schema was first shown the same object in a refused state - devices nil - corrected in place since), and with cdi.SetSpecValidator(BuiltinSchema()) installed WriteSpec to .json and .yaml, ReadSpec of both, "
              "ValidateFile and ValidateData of both written files must succeed, the files read back equal, and a cache over them reports "
              "no load error (read-back equality is judged on the Spec as a file can hold it: bytes that are not valid UTF-8 become U+FFFD). "
              "big-annotations unit: one annotation at spec or device level whose value is a repeated unit - 'a', NUL, a two-byte rune, "
